@@ -364,6 +364,13 @@ def run(ctx):
             rep.unk('B2', f.name, str(e))
     catv_protocol(ctx, m, off, names, rep)
     compare_rule(ctx, m, rep)
+    import stale
+    pidx = stale.field_index(m, 'a_str', 'ptr_')
+    for f in fns:
+        if f.name in ('a_str_setm', 'a_str_setm_'):
+            continue
+        stale.check(rep, 'N3', f, pidx, {'a_str_setm', 'a_str_setm_'})
+    rep.floor('N3', 2)
     rep.floor('B2', 30)
     rep.floor('V1', 1)
     rep.floor('K1', 1)
